@@ -17,7 +17,8 @@ Invariants after every step (exactly the three sentences of the statement):
     system's short name and its FQDN denote the same host);
  3. report - generate_rhsm_facts() and each obfuscator's mapping(): every replaced original is
     listed with exactly the substitute seen in the output, every listed original occurred in some
-    input or is the system's own name, and both reports agree.
+    input or is the system's own name, and both reports agree; at the end of the history the CSV
+    reports written by generate_report() carry the same pairs as mapping().
 """
 import hashlib
 import json
@@ -41,7 +42,7 @@ RULE = ("stateful: one Cleaner (IPv4, hostname, MAC on; 0-3 keywords) per case, 
         "substitutes; MACs in :/- and lower/upper/mixed notation incl. case variants, all-zero/"
         "broadcast and addresses equal to another one's substitute), filler over [G-P] + punctuation, "
         "optional per-spec no_obfuscate exemptions. After every step: consistency, injectivity "
-        "(IPv4, hosts), report (mapping() of every obfuscator and the facts file). Non-trivial: some "
+        "(IPv4, hosts), report (mapping() of every obfuscator, the facts file, finally the CSV files). Non-trivial: some "
         "original recurs in >= 2 operations AND some line carries >= 2 different originals of one class; "
         "distinct by the whole history.")
 ASSUMPTIONS = [
@@ -525,7 +526,7 @@ def selftest():
 
 
 SUBS = [
-    Sub("history", check_history, strategy=strat_history, quick=400, thorough=3500, workers_quick=4,
+    Sub("history", check_history, strategy=strat_history, quick=320, thorough=3500, workers_quick=4,
         workers_thorough=16, budget_quick=50, budget_thorough=560),
 ]
 
